@@ -8,7 +8,9 @@ def make_wl(rng, k):
     spec = workload.random_spec(rng)
     opts = common.random_opts(rng, spec)
     spec["novel"] = rng.choice([1, 2, 3])
-    spec["pre_ids"] = 1 if (k is None and rng.random() < 0.5) or (k is not None and k % 2 == 0) else 0
+    spec["pre_ids"] = rng.choice([1, 2]) if (k is None and rng.random() < 0.6) or (k is not None and k % 2 == 0) else 0
+    spec["mirror"] = rng.choice([0, 1, 2])
+    spec["antisense"] = rng.choice([0, 1])
     spec["n_chr"] = rng.choice([3, 4, 5])
     opts["annotated"] = True if spec["pre_ids"] else opts.get("annotated", True)
     return spec, opts
